@@ -10,7 +10,7 @@ COQ_DEPS = []
 PROFILES = ["debug"]          # the crate's own dev profile: opt-level 2 with debug assertions and overflow checks on
 CORR_IMPORT = "From Coq Require Import Uint63.\nFrom RlibV Require Import C04.Model C04.Corr.\nOpen Scope Z_scope."
 AUDIT_IMPORT = ("From Coq Require Import ZArith List.\nImport ListNotations.\n"
-                "From RlibV Require Import C04.Model C04.Corr C04.Properties.\n")
+                "From RlibV Require Import C04.Model C04.Corr C04.ProofsState C04.Properties.\n")
 EXPLAIN = "explain"
 AXIOM_ALLOW = []
 SHARD = 110
@@ -26,6 +26,22 @@ THEOREMS = [
      "forall dest, snd (fft_into ops tw s v n dest) = zip_acc (cadd ops) dest X) /\\ "
      "(forall (v : list (F * F)) k dest, length v = (2 ^ k)%nat -> "
      "snd (fft_inv_into ops tw s v dest) = zip_acc Z.add dest (snd (fft_inv ops tw s v)))"),
+    ("c04_history_independent",
+     "forall (F : Type) (ops : Ops F) (tw : nat -> nat -> F * F) (s s' : st (F := F)), "
+     "reach ops tw s -> reach ops tw s' -> "
+     "(forall a b, snd (multiply ops tw s a b) = snd (multiply ops tw s' a b)) /\\ "
+     "(forall a b res, snd (multiply_into ops tw s a b res) = snd (multiply_into ops tw s' a b res)) /\\ "
+     "(forall v n dest, (n = 0%nat \\/ exists m, n = (2 ^ m)%nat) -> "
+     "snd (fft_into ops tw s v n dest) = snd (fft_into ops tw s' v n dest)) /\\ "
+     "(forall (v : list (F * F)) m dest, length v = (2 ^ m)%nat -> (length v <= length (R s))%nat -> "
+     "(length v <= length (R s'))%nat -> "
+     "snd (fft_inv_into ops tw s v dest) = snd (fft_inv_into ops tw s' v dest))"),
+    ("c04_reach_closed",
+     "forall (F : Type) (ops : Ops F) (tw : nat -> nat -> F * F) (s : st (F := F)), reach ops tw s -> "
+     "(forall a b, reach ops tw (fst (multiply ops tw s a b))) /\\ "
+     "(forall a b res, reach ops tw (fst (multiply_into ops tw s a b res))) /\\ "
+     "(forall v n dest, (n = 0%nat \\/ exists m, n = (2 ^ m)%nat) -> reach ops tw (fst (fft_into ops tw s v n dest))) /\\ "
+     "(forall (v : list (F * F)) m dest, length v = (2 ^ m)%nat -> reach ops tw (fst (fft_inv_into ops tw s v dest)))"),
 ]
 RULE = ("histories of 1-7 calls on FFT<f64> objects: multiply / multiply_into (non-zero destinations, shorter and longer "
         "than the product) / fft / fft_into / fft+product+fft_inv_into, length pairs from {0,1,2,3,4,5,7,8,9,15,16,17,31,32,33,40} "
